@@ -748,10 +748,15 @@ impl Expression {
                 match ps.peek::<0>() {
                     Some(d) if ('0'..='7').contains(&d) => {
                         // parse as OCT
-                        let mut num = 0i64;
+                        let mut num = IntLitAccumulator::new(8);
                         loop {
-                            let d = ps.next().unwrap() as i64 - '0' as i64;
-                            num = num * 8 + d;
+                            let Some(d) = ps.next().and_then(|ch| ch.to_digit(8)) else {
+                                ps.add_warning_at_current_position(
+                                    ParseErrorKind::UnexpectedExpressionCharacter,
+                                );
+                                return None;
+                            };
+                            num.push_digit(d);
                             let Some(peek) = ps.peek::<0>() else { break };
                             if !is_ident_char(peek) {
                                 break;
@@ -763,65 +768,39 @@ impl Expression {
                                 return None;
                             }
                         }
-                        return Some(Box::new(Expression::LitInt {
-                            value: num,
-                            location: pos..ps.position(),
-                        }));
+                        return Some(Box::new(num.into_expression(pos..ps.position())));
                     }
                     Some('x') => {
                         // parse as HEX
                         ps.next(); // 'x'
-                        let mut num = 0i64;
+                        let mut num = IntLitAccumulator::new(16);
                         let peek = ps.peek::<0>()?;
-                        if !('0'..='9').contains(&peek)
-                            && !('a'..='z').contains(&peek)
-                            && !('A'..='Z').contains(&peek)
-                        {
+                        if !peek.is_ascii_hexdigit() {
                             ps.add_warning_at_current_position(
                                 ParseErrorKind::UnexpectedExpressionCharacter,
                             );
                             return None;
                         }
                         loop {
-                            let ch = ps.next().unwrap();
-                            let d = match ch {
-                                '0' => 0,
-                                '1' => 1,
-                                '2' => 2,
-                                '3' => 3,
-                                '4' => 4,
-                                '5' => 5,
-                                '6' => 6,
-                                '7' => 7,
-                                '8' => 8,
-                                '9' => 9,
-                                'a' | 'A' => 10,
-                                'b' | 'B' => 11,
-                                'c' | 'C' => 12,
-                                'd' | 'D' => 13,
-                                'e' | 'E' => 14,
-                                'f' | 'F' => 15,
-                                _ => unreachable!(),
+                            let Some(d) = ps.next().and_then(|ch| ch.to_digit(16)) else {
+                                ps.add_warning_at_current_position(
+                                    ParseErrorKind::UnexpectedExpressionCharacter,
+                                );
+                                return None;
                             };
-                            num = num * 16 + d;
+                            num.push_digit(d);
                             let Some(peek) = ps.peek::<0>() else { break };
                             if !is_ident_char(peek) {
                                 break;
                             }
-                            if !('0'..='9').contains(&peek)
-                                && !('a'..='z').contains(&peek)
-                                && !('A'..='Z').contains(&peek)
-                            {
+                            if !peek.is_ascii_hexdigit() {
                                 ps.add_warning_at_current_position(
                                     ParseErrorKind::UnexpectedExpressionCharacter,
                                 );
                                 return None;
                             }
                         }
-                        return Some(Box::new(Expression::LitInt {
-                            value: num,
-                            location: pos..ps.position(),
-                        }));
+                        return Some(Box::new(num.into_expression(pos..ps.position())));
                     }
                     Some('e') | Some('.') | Some('8') | Some('9') => {
                         // do nothing
@@ -842,7 +821,8 @@ impl Expression {
             }
 
             // parse as normal DEC
-            let mut int = Some(0);
+            let mut int = Some(0i64);
+            let mut int_overflow = false;
             loop {
                 let next = ps.next().unwrap();
                 if next == 'e' {
@@ -875,8 +855,11 @@ impl Expression {
                 } else {
                     // '0'..='9'
                     if let Some(x) = int.as_mut() {
-                        let d = next as i64 - '0' as i64;
-                        *x = *x * 10 + d;
+                        let d = next.to_digit(10).unwrap_or(0) as i64;
+                        match x.checked_mul(10).and_then(|x| x.checked_add(d)) {
+                            Some(v) => *x = v,
+                            None => int_overflow = true,
+                        }
                     }
                 }
                 let Some(peek) = ps.peek::<0>() else { break };
@@ -893,7 +876,11 @@ impl Expression {
                 }
             }
             let num = match int {
-                None => {
+                Some(int) if !int_overflow => Expression::LitInt {
+                    value: int,
+                    location: pos..ps.position(),
+                },
+                _ => {
                     let Ok(num) = ps.code_slice(start_index..ps.cur_index()).parse::<f64>() else {
                         ps.add_warning_at_current_position(
                             ParseErrorKind::UnexpectedExpressionCharacter,
@@ -905,10 +892,6 @@ impl Expression {
                         location: pos..ps.position(),
                     }
                 }
-                Some(int) => Expression::LitInt {
-                    value: int,
-                    location: pos..ps.position(),
-                },
             };
             Some(Box::new(num))
         })
@@ -1176,6 +1159,43 @@ impl ParseOperator {
 }
 
 // `=` `+=` `-=` `**=` `*=` `/=` `%=` `<<=` `>>=` `>>>=` `&=` `^=` `|=` `&&=` `||=` `??=` are not allowed
+
+/// Accumulates the digits of an integer literal.
+///
+/// Like in JavaScript, a literal that does not fit `i64` becomes a float.
+struct IntLitAccumulator {
+    radix: u32,
+    int: Option<i64>,
+    float: f64,
+}
+
+impl IntLitAccumulator {
+    fn new(radix: u32) -> Self {
+        Self {
+            radix,
+            int: Some(0),
+            float: 0.,
+        }
+    }
+
+    fn push_digit(&mut self, d: u32) {
+        let radix = self.radix;
+        self.float = self.float * radix as f64 + d as f64;
+        self.int = self
+            .int
+            .and_then(|x| x.checked_mul(radix as i64)?.checked_add(d as i64));
+    }
+
+    fn into_expression(self, location: Range<Position>) -> Expression {
+        match self.int {
+            Some(value) => Expression::LitInt { value, location },
+            None => Expression::LitFloat {
+                value: self.float,
+                location,
+            },
+        }
+    }
+}
 
 fn is_ident_char(ch: char) -> bool {
     ch == '_'
